@@ -15,7 +15,12 @@ import (
 	"golang.org/x/tools/go/ssa"
 )
 
-func init() { register("C13", propC13) }
+func init() {
+	register("C13", func(w *World, r *Report, tier string) {
+		propC13(w, r, tier)
+		importStateless(w, r, tier, []string{"nasConvert/Snssai.go", "nasConvert/Nssai.go", "nasConvert/TaiList.go", "nasConvert/ServiceAreaList.go", "nasConvert/Ladn.go", "nasConvert/PlmnId.go"}, "list conversions")
+	})
+}
 
 type listCtx struct {
 	w *World
